@@ -48,3 +48,20 @@ package js_printer
 // following cross-module links is another file's declaration (`import {BK001 as LK001}`: uses of LK001 would be
 // recorded as BK001), so the recorded name must not be taken from the followed symbol.
 //@ flow recorded-name-is-the-identifier-at-loc C07: func=(*printer).addSourceMappingForName ; in=js_printer ; site=call AddSourceMapping ; scenario=sourcemap_alias_name ; argnot=2:*FollowSymbols*
+
+// C06 / C01 ("the output is the program"): a negative number is printed with a unary minus, and a UnaryExpression may not
+// be the left operand of `**` (ECMA-262 13.6: ExponentiationExpression : UpdateExpression ** ExponentiationExpression;
+// `-1 ** 2` is an early SyntaxError). The printer therefore raises the level of the left operand of `**` to LCall (21)
+// when that operand will be printed with a leading operator. A number reaches the printer not only as an ENumber but
+// also as an inlined enum member (EInlinedEnum wrapping an ENumber); the decision must look at that form too.
+//@ decides pow-left-operand-looks-through-inlined-enums C06 C01: func=(*binaryExprVisitor).checkAndPrepare ; in=js_printer ; site=store binaryExprVisitor.leftLevel ; when=21* ; scenario=neg_enum_pow ; must=type:EInlinedEnum
+
+// C01 ("the printed program is the program"): a directive is a directive only if its source text is EXACTLY the string
+// (ECMA-262 11.2.1: a Use Strict Directive contains no EscapeSequence or LineContinuation). With --line-limit the string
+// printer may break a long string with a `\<newline>` continuation; for a directive that must be switched off.
+//@ flow directives-are-never-wrapped C01: func=(*printer).printStmt ; in=js_printer ; site=call printQuotedUTF16 ; scenario=directive_broken_by_line_limit ; argpath=2:2
+
+// C01: a regular-expression literal printed directly after a `/` would form `//`, a line comment that swallows the rest
+// of the line (`a / /b/.exec(s)` minified to `a//b/.exec(s)`). The space that prevents this has nothing to do with
+// inline <script> support and must not depend on that feature switch (only the `</script` half of the test does).
+//@ guarded slash-before-regexp-is-always-separated C01: func=(*printer).printExpr ; in=js_printer ; site=call print ; when-arg=1:" " ; only-under=true:expr.Data.(ERegExp) ; scenario=regex_after_slash_no_inline_script ; forbid=false:call Has(p.options.UnsupportedFeatures,*)
